@@ -116,7 +116,11 @@
         (all (gfor  e x  (is (type e) hy.models.Symbol)))
         (or (= x0 '.) (and
           (= x1 'None)
-          (not (.strip (str x0) ".")))))
+          (not (.strip (str x0) "."))))
+        ; Each name has to be one that the reader would split off again.
+        (all (gfor
+          e (cut x (if (= x1 'None) 2 1) None)
+          (and e (not-in "." e)))))
       (+
         (if (= x1 'None) (str x0) "")
         (.join "." (map hy-repr (cut
